@@ -233,26 +233,27 @@ type c20Thread struct {
 type c20Chooser func(enabled []c20Action, ths []*c20Thread, holder int) (c20Action, bool)
 
 type c20Run struct {
-	env    *c20Env
-	b      *doubles.MemBackend
-	email  string
-	ths    []*c20Thread
-	arrive chan c20Arrival
-	mu     sync.Mutex
-	dead   map[int]bool
-	cur    int
-	holder int            // a thread that holds a storage lock (-1: none), for the choosers
-	held   map[string]int // storage lock name -> thread that holds it (mutual exclusion is per name, as in a Locker)
-	events []c20Event
-	script []c20Action
-	keys   map[string][2]int // storage key -> (ca, 0 reg / 1 key)
-	lockNm string
-	kp     *c20KP
-	b0     [2]int // configured-key mode: the two files when the probe started
-	lost   map[[2]int]bool // (CA, request number): the response of this request is to be dropped
-	sticky map[int]*mockca.Problem // thread -> the answer to every further newOrder of its current operation (acmez retries a 5xx)
-	finFlt map[int]*mockca.Problem // thread -> the answer to its next finalize request
-	keyChk [2]string               // the first storage key / lock name that differs from the harness's own naming (recorded, not used)
+	env      *c20Env
+	b        *doubles.MemBackend
+	email    string
+	ths      []*c20Thread
+	arrive   chan c20Arrival
+	mu       sync.Mutex
+	dead     map[int]bool
+	cur      int
+	holder   int            // a thread that holds a storage lock (-1: none), for the choosers
+	held     map[string]int // storage lock name -> thread that holds it (mutual exclusion is per name, as in a Locker)
+	events   []c20Event
+	script   []c20Action
+	keys     map[string][2]int // storage key -> (ca, 0 reg / 1 key)
+	lockNm   string
+	kp       *c20KP
+	b0       [2]int                  // configured-key mode: the two files when the probe started
+	lost     map[[2]int]bool         // (CA, request number): the response of this request is to be dropped
+	sticky   map[int]*mockca.Problem // thread -> the answer to every further newOrder of its current operation (acmez retries a 5xx)
+	finFlt   map[int]*mockca.Problem // thread -> the answer to its next finalize request
+	deadlock bool                    // the history ran into a state where every remaining thread waited for a held lock
+	keyChk   [2]string               // the first storage key / lock name that differs from the harness's own naming (recorded, not used)
 }
 
 // c20AcctKeys: the storage keys of the account files of (CA, contact), computed by the harness
@@ -873,7 +874,25 @@ func c20RunHist(env *c20Env, email string, cas []int, choose c20Chooser, maxStep
 			return abort(fmt.Errorf("c20 harness: history exceeds %d steps", maxSteps))
 		}
 		if len(enabled) == 0 {
-			return abort(fmt.Errorf("c20 harness: no thread enabled (deadlock), holder=%d", r.holder))
+			// every thread that is left waits for a lock that nobody is going to release (it was
+			// leaked): an observation, not a harness failure. The waiters give up one by one (as if
+			// their instances were stopped); the final observation then shows the lock still held
+			// although nothing is in flight (clause (f) of the monitor).
+			r.deadlock = true
+			gaveUp := false
+			for t, th := range r.ths {
+				if th.state == 2 {
+					if err := apply(c20Action{K: "crash", T: t}); err != nil {
+						return abort(err)
+					}
+					gaveUp = true
+					break
+				}
+			}
+			if !gaveUp {
+				return abort(fmt.Errorf("c20 harness: no thread enabled (deadlock), holder=%d", r.holder))
+			}
+			continue
 		}
 		a, ok := choose(enabled, r.ths, r.holder)
 		if !ok {
@@ -1346,6 +1365,10 @@ func runC20(tier string, seed int64, outdir string, replay string) error {
 		for k, v := range feats {
 			desc[k] = v
 		}
+		if r.deadlock {
+			desc["deadlock"] = true
+			w.Hist("hist_deadlock")
+		}
 		nontrivial := nreg > 0 && (len(nlock) >= 2 || nf+nc+nr+nlost > 0)
 		w.Add(emit.Case{Desc: desc, In: c20HistIn{Kind: "hist", Email: email, CAs: cas, Script: r.script},
 			Obs: map[string]any{"events": evs, "final": fin}, Wire: c20HistWire(r.events, fin), Nontrivial: nontrivial})
@@ -1642,8 +1665,8 @@ func runC20(tier string, seed int64, outdir string, replay string) error {
 		e := &emit.Enc{}
 		e.Int(3).Bool(withEmail).Bool(km).Bool(regOK).Bool(caKnows).Bool(err == nil).Int(lookups).Bool(saved).Int(created)
 		w.Add(emit.Case{Desc: map[string]any{"kind": "keypem", "class": "account-key-pem", "with_email": withEmail, "key_matches": km, "key_present": keyPresent, "reg": regOK, "ca_knows": caKnows},
-			In:  map[string]any{"kind": "keypem", "with_email": withEmail, "key_matches": keyMatches, "key_present": keyPresent, "reg": regOK, "ca_knows": caKnows},
-			Obs: map[string]any{"ok": err == nil, "error": fmt.Sprint(err), "location": acct.Location, "lookups": lookups, "saved": saved, "created": created},
+			In:   map[string]any{"kind": "keypem", "with_email": withEmail, "key_matches": keyMatches, "key_present": keyPresent, "reg": regOK, "ca_knows": caKnows},
+			Obs:  map[string]any{"ok": err == nil, "error": fmt.Sprint(err), "location": acct.Location, "lookups": lookups, "saved": saved, "created": created},
 			Wire: e.String(), Nontrivial: true, Key: fmt.Sprint(withEmail, keyMatches, keyPresent, regOK, caKnows)})
 		w.Hist("kind=keypem")
 		ca.Wipe()
@@ -1753,13 +1776,16 @@ func runC20(tier string, seed int64, outdir string, replay string) error {
 			return err
 		}
 		for i, sc := range [][]c20Action{
-			cat(stale2, one(S(1)), one(S(2)), rep(S(1), 6), rep(S(2), 6)),                     // both refused; 1 deletes and unlocks; 2 finds nothing; then both queue to register
-			cat(stale2, one(S(1)), one(S(2)), rep(S(2), 6), rep(S(1), 4), rep(S(2), 8)),       // ... the other one deletes; 1 compares while 2 registers
-			cat(stale2, rep(S(1), 5), one(S(2)), one(c20Action{K: "crash", T: 1}), rep(S(2), 6)), // 1 crashes between its two Deletes; 2 takes over the lock
-			cat(stale2, rep(S(1), 4), one(F(1)), one(S(1)), rep(S(2), 8)),                     // 1's Delete of the reg file fails; 2 deletes
-			cat(stale2, rep(S(1), 5), one(F(1)), one(S(1)), rep(S(2), 8)),                     // 1's Delete of the key file fails; 2 finds the reg file gone
+			cat(stale2, one(S(1)), one(S(2)), rep(S(1), 6), rep(S(2), 6)),                         // both refused; 1 deletes and unlocks; 2 finds nothing; then both queue to register
+			cat(stale2, one(S(1)), one(S(2)), rep(S(2), 6), rep(S(1), 4), rep(S(2), 8)),           // ... the other one deletes; 1 compares while 2 registers
+			cat(stale2, rep(S(1), 5), one(S(2)), one(c20Action{K: "crash", T: 1}), rep(S(2), 6)),  // 1 crashes between its two Deletes; 2 takes over the lock
+			cat(stale2, rep(S(1), 4), one(F(1)), one(S(1)), rep(S(2), 8)),                         // 1's Delete of the reg file fails; 2 deletes
+			cat(stale2, rep(S(1), 5), one(F(1)), one(S(1)), rep(S(2), 8)),                         // 1's Delete of the key file fails; 2 finds the reg file gone
 			cat(stale2, rep(S(1), 12), one(S(2)), one(c20Action{K: "crash", T: 1}), rep(S(2), 8)), // 1 crashes between the Stores of the new account
-			cat(stale2, rep(S(1), 2), one(F(1)), rep(S(2), 4), one(F(2))),                     // the compare-and-delete's own Loads fail
+			cat(stale2, rep(S(1), 2), one(F(1)), rep(S(2), 4), one(F(2))),                         // the compare-and-delete's own Loads fail
+			cat(stale2, rep(S(1), 15), rep(S(2), 2), one(F(2))),                                   // ... after the account was replaced: reg file
+			cat(stale2, rep(S(1), 15), rep(S(2), 3), one(F(2))),                                   // ... key file
+			cat(stale2, rep(S(1), 13), rep(S(2), 1), one(S(1)), rep(S(2), 4)),                     // 2 queues on the lock while 1 saves the new account
 		} {
 			if err := addHist("concurrent-recreate", email, []int{0, 0, 0}, c20Scripted(sc), map[string]any{"shape": "directed", "variant": i}); err != nil {
 				return err
@@ -1787,16 +1813,16 @@ func runC20(tier string, seed int64, outdir string, replay string) error {
 		}
 		// save faults at each operation of the save, with a waiter
 		for _, sc := range [][]c20Action{
-			cat(one(St(0, 0)), rep(S(0), 4), one(St(1, 0)), one(S(1)), one(F(0))),                         // Store reg fails
-			cat(one(St(0, 0)), rep(S(0), 5), one(St(1, 0)), one(S(1)), one(F(0))),                         // Store key fails, rollback ok
-			cat(one(St(0, 0)), rep(S(0), 5), one(St(1, 0)), one(S(1)), one(F(0)), one(F(0))),              // Store key fails, rollback fails: reg only
-			cat(one(St(0, 0)), rep(S(0), 3), one(F(0)), one(St(1, 0))),                                    // newAccount fails
-			cat(one(St(0, 0)), one(S(0)), one(F(0)), one(St(1, 0))),                                       // Lock fails
-			cat(one(St(0, 0)), rep(S(0), 2), one(F(0)), one(St(1, 0))),                                    // reload fails
-			cat(one(St(0, 0)), rep(S(0), 5), one(c20Action{K: "crash", T: 0}), one(St(1, 0))),             // crash between the two Stores
-			cat(one(St(0, 0)), rep(S(0), 4), one(c20Action{K: "crash", T: 0}), one(St(1, 0))),             // crash after newAccount
-			cat(one(St(0, 0)), rep(S(0), 5), one(St(1, 0)), one(S(1)), rep(S(0), 1), one(S(1)), one(S(1))), // reader between reg and key
-			cat(one(St(0, 0)), rep(S(0), 3), one(St(1, 0)), one(S(1)), one(c20Action{K: "step", T: 0, L: true})), // the response of newAccount is lost, with a waiter
+			cat(one(St(0, 0)), rep(S(0), 4), one(St(1, 0)), one(S(1)), one(F(0))),                                                                                        // Store reg fails
+			cat(one(St(0, 0)), rep(S(0), 5), one(St(1, 0)), one(S(1)), one(F(0))),                                                                                        // Store key fails, rollback ok
+			cat(one(St(0, 0)), rep(S(0), 5), one(St(1, 0)), one(S(1)), one(F(0)), one(F(0))),                                                                             // Store key fails, rollback fails: reg only
+			cat(one(St(0, 0)), rep(S(0), 3), one(F(0)), one(St(1, 0))),                                                                                                   // newAccount fails
+			cat(one(St(0, 0)), one(S(0)), one(F(0)), one(St(1, 0))),                                                                                                      // Lock fails
+			cat(one(St(0, 0)), rep(S(0), 2), one(F(0)), one(St(1, 0))),                                                                                                   // reload fails
+			cat(one(St(0, 0)), rep(S(0), 5), one(c20Action{K: "crash", T: 0}), one(St(1, 0))),                                                                            // crash between the two Stores
+			cat(one(St(0, 0)), rep(S(0), 4), one(c20Action{K: "crash", T: 0}), one(St(1, 0))),                                                                            // crash after newAccount
+			cat(one(St(0, 0)), rep(S(0), 5), one(St(1, 0)), one(S(1)), rep(S(0), 1), one(S(1)), one(S(1))),                                                               // reader between reg and key
+			cat(one(St(0, 0)), rep(S(0), 3), one(St(1, 0)), one(S(1)), one(c20Action{K: "step", T: 0, L: true})),                                                         // the response of newAccount is lost, with a waiter
 			cat(one(St(0, 0)), rep(S(0), 3), one(c20Action{K: "step", T: 0, L: true}), one(S(0)), one(St(1, 0)), rep(S(1), 3), one(c20Action{K: "step", T: 1, L: true})), // twice
 		} {
 			if err := addHist("save-faults", email, []int{0, 0}, c20Scripted(sc), map[string]any{"shape": "directed"}); err != nil {
@@ -1852,7 +1878,7 @@ func runC20(tier string, seed int64, outdir string, replay string) error {
 		case x < 17:
 			sh.class, sh.seq, sh.maxReset, sh.pFault, sh.maxFaults, sh.maxCrash = "seq-recreate", true, 1+rr.Intn(2), 0.08, rr.Intn(2), rr.Intn(2)
 		default:
-			sh.class, sh.maxReset, sh.pFault, sh.maxFaults = "concurrent-recreate", 1+rr.Intn(2), 0.05, rr.Intn(2)
+			sh.class, sh.maxReset, sh.pFault, sh.maxFaults = "concurrent-recreate", 1+rr.Intn(2), 0.1, rr.Intn(3)
 		}
 		sh.cas = make([]int, sh.n)
 		switch rr.Intn(4) {
